@@ -414,6 +414,13 @@ class QasmProcessor:
             elif command[0] == "gate":
                 # Custom definition of gates.
                 gate_name = command[1]
+                if (
+                    gate_name in self.gate_names
+                    and gate_name not in self.predefined_gates
+                ):
+                    raise ValueError(
+                        "QASM: gate {} is already defined".format(gate_name)
+                    )
                 gate_args, gate_regs = _gate_processor(command[1:])
                 curr_gate = QasmGate(gate_name, gate_args, gate_regs)
                 gate_defn_mode = True
@@ -421,6 +428,7 @@ class QasmProcessor:
                 groups = re.match(r"(.*)\[(.*)\]", "".join(command[1:]))
                 if groups:
                     qubit_name = groups.group(1)
+                    self._check_new_register(qubit_name)
                     num_regs = int(groups.group(2))
                     self.qubit_regs[qubit_name] = list(
                         range(self.num_qubits, self.num_qubits + num_regs)
@@ -433,6 +441,7 @@ class QasmProcessor:
                 groups = re.match(r"(.*)\[(.*)\]", "".join(command[1:]))
                 if groups:
                     cbit_name = groups.group(1)
+                    self._check_new_register(cbit_name)
                     num_regs = int(groups.group(2))
                     self.cbit_regs[cbit_name] = list(
                         range(self.num_cbits, self.num_cbits + num_regs)
@@ -454,6 +463,13 @@ class QasmProcessor:
             raise SyntaxError("QASM: incorrect bracket formatting")
 
         self.commands = [self.commands[i] for i in unprocessed]
+
+    def _check_new_register(self, name):
+        """A register may be declared only once."""
+        if name in self.qubit_regs or name in self.cbit_regs:
+            raise ValueError(
+                "QASM: register {} is already declared".format(name)
+            )
 
     def _check_body_call(self, curr_gate, name, gate_args, gate_regs):
         """
